@@ -947,7 +947,63 @@ impl Prims {
     }
 
     /// C19 at store level: long words, long queries, many records, scratch reuse across stores and languages.
+    /// One store grown record by record past every power of two up to 2^16 (one time in four 2^17, and one time in four after
+    /// an earlier life and a `clear()`): whenever it holds 2^m - 1, 2^m, 2^m + 1 or 2^m + 2 records (m >= 7), the record that
+    /// has just arrived is searched for at once - the newest position is the one a counter vector sized a step too early
+    /// does not cover yet.
+    fn unchecked_growth_marks(&self, cx: &mut Cx) {
+        let lang = LANGS[((cx.idx / 400) % NL) as usize];
+        let top: usize = if (cx.idx / 400) % 4 == 3 { 1 << 17 } else { 1 << 16 };
+        let letters: Vec<char> = gen::lower_alphabet(lang).into_iter().filter(|c| c.is_alphabetic()).take(20).collect();
+        if letters.len() < 6 {
+            return;
+        }
+        let spell = |mut i: usize| -> String {
+            let mut w = vec![letters[0], letters[1]];
+            for _ in 0..5 {
+                w.push(letters[2 + i % (letters.len() - 2)]);
+                i /= letters.len() - 2;
+            }
+            s(&w)
+        };
+        let mut st = St::sentinel(lang, *cx.rng.pick(&[1usize, 3, 10]));
+        if (cx.idx / 400) % 4 == 1 {
+            for i in 0..300 {
+                st.add(&(i, format!("{} old", spell(i)), 1));
+            }
+            let _ = st.search(&spell(7));
+            st.store.clear();
+            cx.count("stores grown past powers of two after an earlier life and a clear");
+        }
+        let mut found = 0u64;
+        for i in 0..top + 3 {
+            let size = i + 1;
+            let near = (7..=17).any(|m| {
+                let p = 1usize << m;
+                size + 1 >= p && size <= p + 2
+            });
+            let title = if near { format!("{} x", spell(i)) } else { format!("z{} y", i % 5) };
+            st.add(&(i, title, i % 3));
+            if near {
+                let q = spell(i);
+                cx.ctx(format!("C19 growth marks lang={}: store of {} records, the newest titled {:?}, searched for at once", lang, size, q));
+                let ids = st.search_ids(&q);
+                cx.eval();
+                cx.count("searches for the record that has just made the store 2^m - 1 .. 2^m + 2 records big");
+                if ids.contains(&i) {
+                    found += 1;
+                }
+            }
+        }
+        cx.count_n("such searches that found the newest record", found);
+        cx.count("stores grown record by record past every power of two up to 2^16");
+        cx.key(hparts(&[lang, &top.to_string(), "growth-marks"]));
+    }
+
     fn unchecked_store(&self, cx: &mut Cx) {
+        if cx.idx % 400 == 13 && cx.tier != Tier::Miri {
+            return self.unchecked_growth_marks(cx);
+        }
         let corpus = corpus_recs();
         // several stores live on one thread: the store of the previous round stays alive while the next one is
         // built, searched and dropped, and is searched again afterwards (scratch shared between stores and
@@ -1112,7 +1168,7 @@ impl Prop for Prims {
             Which::Distance => vec![("exhaustive pairs", 100000, 2000000), ("prefix cells compared", 1000000, 20000000), ("pairs where a discount lowered the distance", 10000, 100000), ("random pairs beyond capacity 20", 500, 5000), ("long pairs with sampled prefix cells", 200, 2000), ("random cases with per-position character classes", 2000, 20000), ("re-classed repeat calls", 10000, 100000), ("random cases over an alphabet of 41-110 symbols", 3000, 30000), ("random cases over letters related by case or compatibility mappings", 3000, 30000), ("random cases over letters that agree in their low 8, 16 or 20 bits", 3000, 30000), ("calls on a word buffer overwritten in place since the call before", 20000, 200000), ("pairs holding more than 256 different letters", 200, 2000), ("calls with one word held fixed while the other grows", 20000, 200000), ("session calls on one instance", 1000000, 6000000), ("most calls on one instance max ", 131072, 131072), ("hook matrix growths", 3, 3), ("hook matrix max size", 50, 50)],
             Which::Jaccard => vec![("exhaustive pairs", 100000, 1500000), ("pairs with partial overlap", 20000, 200000), ("pairs beyond the initial capacity of 20", 500, 5000), ("calls whose arguments are ranges of one buffer that overlap only partly", 20000, 200000), ("random cases over elements that agree in their low 8, 16 or 20 bits", 1000, 10000), ("calls on a buffer overwritten in place since the call before", 100000, 1000000), ("random cases over a wide alphabet", 1000, 10000), ("hook jaccard accesses", 100000, 1000000)],
             Which::Index => vec![("prepare calls", 5000, 50000), ("capped calls", 500, 5000), ("calls with ties at the cut", 100, 1000), ("size 0", 300, 3000), ("corpus prepare calls", 200, 2000), ("stores of 1023-5000 records", 50, 500), ("queries with more than 255 distinct grams", 300, 15000), ("calls at the boundary between 'all listed' and 'capped'", 300, 15000), ("session calls on one index", 1000000, 10000000), ("most calls on one index max ", 131000, 131000), ("sessions past 2^17 calls", 2, 20), ("calls with a query without words", 300, 3000), ("sparse indexes of 65 000 - 330 000 records", 16, 160), ("queries with more than 65 536 distinct grams", 2, 50), ("stores of words with letters above U+FFFF and their 16-bit look-alikes", 300, 3000), ("stores of random words and their look-alikes under 8-, 16- or 20-bit packing", 300, 3000), ("capped calls in which one record shares more than 65 536 grams with the query", 1, 25)],
-            Which::Unchecked => vec![("direct distance/similarity calls", 20000, 200000), ("direct calls beyond capacity 20", 5000, 50000), ("store-level searches", 5000, 50000), ("store-level rounds with 127-1500 records", 200, 2000), ("store-level rounds with clear and re-add", 500, 5000), ("type-ahead sequences with adds in between", 1000, 10000), ("direct call sequences with words of 76-420 letters", 200, 2000), ("direct call sequences with arithmetic length relations", 300, 3000), ("store-level queries of 65-200 words", 300, 3000), ("searches on a surviving store after a neighbour store was dropped", 3000, 30000), ("stores filled on one thread and searched on another", 500, 5000), ("direct calls whose arguments share their buffers", 5000, 50000), ("jaccard calls on sets of 256-70000 distinct elements", 20, 200), ("hook matrix accesses", 1000000, 10000000), ("hook matrix growths", 3, 3), ("hook matrix max size", 50, 50), ("hook counter accesses", 10000, 100000), ("hook cost accesses", 100000, 1000000), ("hook jaccard accesses", 10000, 100000)],
+            Which::Unchecked => vec![("stores grown record by record past every power of two up to 2^16", 4, 200), ("searches for the record that has just made the store 2^m - 1 .. 2^m + 2 records big", 100, 5000), ("direct distance/similarity calls", 20000, 200000), ("direct calls beyond capacity 20", 5000, 50000), ("store-level searches", 5000, 50000), ("store-level rounds with 127-1500 records", 200, 2000), ("store-level rounds with clear and re-add", 500, 5000), ("type-ahead sequences with adds in between", 1000, 10000), ("direct call sequences with words of 76-420 letters", 200, 2000), ("direct call sequences with arithmetic length relations", 300, 3000), ("store-level queries of 65-200 words", 300, 3000), ("searches on a surviving store after a neighbour store was dropped", 3000, 30000), ("stores filled on one thread and searched on another", 500, 5000), ("direct calls whose arguments share their buffers", 5000, 50000), ("jaccard calls on sets of 256-70000 distinct elements", 20, 200), ("hook matrix accesses", 1000000, 10000000), ("hook matrix growths", 3, 3), ("hook matrix max size", 50, 50), ("hook counter accesses", 10000, 100000), ("hook cost accesses", 100000, 1000000), ("hook jaccard accesses", 10000, 100000)],
         }
     }
     #[allow(unused_variables)]
